@@ -15,7 +15,8 @@ FINISH = dict(level="proof", rule=(
 
 HDR = "From GS Require Import Container.Batch Container.BatchProofs Container.EvalBatch.\n"
 O_CREAT, O_EXCL, O_TRUNC = 0o100, 0o200, 0o1000
-FLAGS = [0, 1, 0o1101, 0o102, 0o301]     # RDONLY, WRONLY, WRONLY|CREAT|TRUNC, RDWR|CREAT, WRONLY|CREAT|EXCL
+# RDONLY, WRONLY, WRONLY|CREAT|TRUNC, RDWR|CREAT, WRONLY|CREAT|EXCL, and the same with O_NOFOLLOW / O_NONBLOCK (which change nothing about what may be opened)
+FLAGS = [0, 1, 0o1101, 0o102, 0o301, 0o400000, 0o400001, 0o404000, 0o400102, 0o4000]
 KINDS = ["absent", "reg", "dir", "fifo", "sym_secret", "sym_dangling", "sym_dir", "sock"]
 
 
@@ -270,6 +271,38 @@ def run(c):
     if so[1]["fail"] or so[3]["err"]:
         c.finding_or_violation({"kind": "open-batch-history", "what": so[1]["fail"] or so[3]["err"]},
                                {"history": "%d rounds of 250-item create + read-back batches on one environment" % rounds})
+    # ---- many failing items with long names (tens of kilobytes of error text in one reply), good items among them and at the end
+    longn = "n" * 180
+    bitems = []
+    for k in range(96):
+        bitems.append({"path": "/w/absent-directory-%d/%s" % (k, longn), "flag": 0, "perm": 0} if k % 24 != 7 else
+                      {"path": "/w/good%d" % k, "flag": 0o102, "perm": 0o600, "write": "g%d" % k})
+    bitems.append({"path": "/w/last", "flag": 0o102, "perm": 0o600, "write": "last"})
+    lo = c.run_harness(exe, [{"id": 0, "ops": [{"op": "newenv"}, {"op": "open", "items": bitems}, {"op": "ping"},
+                                               {"op": "symlink", "links": [{"link": "/w/absent-directory-%d/%s" % (k, longn), "target": "x"} for k in range(96)] + [{"link": "/w/lastlink", "target": "last"}]},
+                                               {"op": "exec", "args": [T, "kinds", "/w/last", "/w/lastlink", "/w/good7"]}, {"op": "newenv"}]}], env=env, timeout=600)[0]["obs"]
+    c.count("long-error-texts", nontrivial=True, klass="batch:long-errors")
+    lcanon = lambda what, **kw: dict({"kind": "open-batch", "what": what, "failing_items": 92, "error_text_bytes": "about 25000"}, **kw)
+    if len(lo) < 5 or any(x.get("hang") for x in lo):
+        c.finding_or_violation(lcanon("a batch with many failing items never returned"), {"observed": lo})
+    else:
+        res = lo[1].get("results") or []
+        if lo[1].get("err") or len(res) != len(bitems):
+            c.finding_or_violation(lcanon("batch failed as a whole: " + str(lo[1].get("err"))[:80]), {"items": "96 items, 92 of them below directories that do not exist, then one good item", "observed": lo[1]})
+        else:
+            for k, (itm, x) in enumerate(zip(bitems, res)):
+                good = "write" in itm
+                if good != ("err" not in x):
+                    c.finding_or_violation(lcanon("result %d does not belong to item %d" % (k, k), index=k, item_is_good=good), {"item": itm, "result": x})
+                    break
+        if lo[2].get("err"):
+            c.finding_or_violation(lcanon("the environment is unusable after the batch: " + lo[2]["err"][:60]), {"observed": lo[1:3]})
+        sres = lo[3].get("results") if isinstance(lo[3].get("results"), list) and not lo[3].get("err") else None
+        kinds = json.loads(lo[4]["stdout"]) if lo[4].get("stdout", "").startswith("[") else None
+        if kinds is not None and (kinds[0].split(":")[0] != "reg" or not kinds[1].startswith("sym") or kinds[2].split(":")[0] != "reg"):
+            c.finding_or_violation(lcanon("good items of the batch did not take effect", kinds=kinds), {"observed": lo[1:5]})
+        if sres is not None and (len(sres) != 97 or any(not e for e in sres[:96]) or sres[96]):
+            c.finding_or_violation(lcanon("Symlink results are not aligned with the request (impossible links reported as made, or the good one as failed)"), {"observed": lo[3]})
     # ---- a batch with more succeeding items than one message can carry descriptors (SCM_MAX_FD = 253)
     bo = c.run_harness(exe, [{"id": 0, "ops": [{"op": "newenv"}, {"op": "openstress", "rounds": 1, "n": 253}, {"op": "ping"}, {"op": "openstress", "rounds": 1, "n": 254}, {"op": "ping"},
                                                {"op": "newenv"}]}], env=env, timeout=600)[0]["obs"]
